@@ -45,6 +45,8 @@ pub struct TableSummary {
     pub round_flow_id: u64,
     /// per registered flow: (id, hop ttls, target hop ttl, round count)
     pub flows: Vec<(u64, Vec<u8>, u8, usize)>,
+    /// (ttl, last_nat_status as 0 = not applicable, 1 = not detected, 2 = detected) of hops()
+    pub nat: Vec<(u8, u8)>,
 }
 
 pub fn summarize(state: &trippy_core::State) -> TableSummary {
@@ -72,6 +74,19 @@ pub fn summarize(state: &trippy_core::State) -> TableSummary {
         flow_ids: state.flows().iter().map(|(_, id)| id.0).collect(),
         round_flow_id: state.round_flow_id().0,
         flows,
+        nat: hops
+            .iter()
+            .map(|h| {
+                (
+                    h.ttl(),
+                    match h.last_nat_status() {
+                        trippy_core::NatStatus::NotApplicable => 0,
+                        trippy_core::NatStatus::NotDetected => 1,
+                        trippy_core::NatStatus::Detected => 2,
+                    },
+                )
+            })
+            .collect(),
     }
 }
 
